@@ -344,6 +344,8 @@ def controller_set(draw, pic, wire_carriable=True, wild=False):
         value = draw(conforming(orule))
     else:
         value = draw(free_text if wire_carriable else st.text(st.characters(exclude_categories=["Cs"]), max_size=8))
+    if rule[0] == "any" and isinstance(value, str) and "\n" not in value and draw(st.integers(0, 7)) == 0:
+        value = value + draw(st.sampled_from([" ", "   ", "\t"]))  # blank-padded text (an LCD line): sent as it is
     if draw(st.integers(0, 9)) == 0 and V._CANON_INT.match(value) and len(value) < 6:  # pylint: disable=protected-access
         value = int(value)  # numbers are allowed as values
     pic.desired.setdefault((nid, cid), set()).add(vt)
@@ -477,6 +479,11 @@ def histories(draw, versions=T.VERSIONS, max_ops=30, invalid=True, controller=Tr
                 nid, cid = draw(st.sampled_from(cands))
                 vt = draw(st.sampled_from([0, 1, 24, 25, 28, 32, 2, 3]))
                 value = draw(conforming(T.payload_rule(version, T.SET, vt)))
+                if T.payload_rule(version, T.SET, vt)[0] == "any" and draw(st.integers(0, 2)) == 0:
+                    value = value + draw(st.sampled_from([" ", "    ", "\t"]))  # blank-padded text: answered and pushed as it is
+                if not wire_carriable and draw(st.integers(0, 2)) == 0:
+                    # text the controller may pass but the wire cannot carry back unchanged: it is sent as it is
+                    vt, value = 24, draw(st.sampled_from(["line one; line two", "a;b", ";", ";;1;2", "padded   ", " x; y "]))
                 ops.append({"op": "set", "n": nid, "c": cid, "vt": vt, "value": value})
                 pic.desired.setdefault((nid, cid), set()).add(vt)
                 if draw(st.integers(0, 3)) > 0:
@@ -487,7 +494,22 @@ def histories(draw, versions=T.VERSIONS, max_ops=30, invalid=True, controller=Tr
         elif roll == "otaflow":
             # template: schedule an update, let the node ask for the config and then for blocks at the edges
             known = pic.known_nodes()
-            if known:
+            strangers = [n for n in NODE_POOL if n not in pic.nodes and 0 < n < 255]
+            if strangers and draw(st.integers(0, 2)) == 0:
+                # the update names a node the gateway does not know (yet): that call schedules nothing, also not
+                # for later, when a node with that id appears
+                nid = draw(st.sampled_from(strangers))
+                image = {"len": 40, "seed": draw(st.integers(0, 99)), "fill": "random"}
+                ftype, fver = draw(st.integers(0, 2)), draw(st.integers(0, 2))
+                ops.append({"op": "fw", "nids": draw(st.sampled_from([nid, [nid], [nid, 99]])), "type": ftype, "ver": fver, "image": image})
+                if (ftype, fver) not in pic.fw:
+                    pic.fw.append((ftype, fver))
+                pic.images[(ftype, fver)] = image
+                ops.append({"op": "line", "text": frame((nid, 255, T.PRESENTATION, 0, 17, "2.0"))})
+                pic.nodes.setdefault(nid, {})
+                ops.append({"op": "line", "text": frame((nid, 255, T.STREAM, 0, 0, O.words_hex(9, 9, 1, 2, 3)))})
+                ops.append({"op": "line", "text": frame((nid, 255, T.STREAM, 0, 2, O.words_hex(ftype, fver, 0)))})
+            elif known:
                 nid = draw(st.sampled_from(known))
                 length = draw(st.sampled_from([1, 16, 100, 128, 129, 200]))
                 image = {"len": length, "seed": draw(st.integers(0, 99)), "fill": "random"}
@@ -596,6 +618,10 @@ def histories(draw, versions=T.VERSIONS, max_ops=30, invalid=True, controller=Tr
             t = draw(st.tuples(st.integers(1971, 2037), st.integers(1, 12), st.integers(1, 28), st.integers(0, 23), st.integers(0, 59), st.integers(0, 59)))
             ops.append({"op": "clock", "t": list(t), "dst": draw(st.sampled_from([0, 1, -1]))})
     case = {"version": version, "flavour": draw(st.sampled_from(list(flavours))), "ops": ops}
+    if draw(st.integers(0, 4)) == 0:
+        # the same protocol version, written the way an application may write it
+        major, minor = version.split(".")
+        case["gw_version"] = draw(st.sampled_from([version + ".0", version + ".1", version + ".9", float(version), f"{major}.{minor}.0"]))
     if weights.get("save"):
         case["persist"] = draw(st.sampled_from(["pickle", "json"]))
     return case
